@@ -3,8 +3,6 @@
 package main
 
 import (
-	"strconv"
-
 	"github.com/snapcore/snapd/zzverif/vh"
 )
 
@@ -225,9 +223,9 @@ func genAlt(r *vh.Rand, plugSide, inst, arity bool) alt {
 				}
 			}
 		}
-		if arity && r.Chance(1, 4) {
+		if arity && r.Chance(1, 2) {
 			n++
-			a.SlotsPerPlug = r.Pick([]string{"*", "1", "2", "*"})
+			a.SlotsPerPlug = r.Pick([]string{"*", "1", "2", "*", "*"})
 		}
 		if p() {
 			oc := onClassic{Classic: r.Bool()}
@@ -439,6 +437,10 @@ func genConn(r *vh.Rand, auto bool) in {
 	i.Base = decl{Plugs: genIRules(r, true, focus, probs[2]), Slots: genIRules(r, false, focus, probs[3])}
 	i.ExtraDenyPlug = genAlt(r, true, false, false)
 	i.ExtraDenySlot = genAlt(r, false, false, false)
+	if r.Chance(1, 3) { // an alternative that certainly matches
+		i.ExtraDenyPlug = alt{OnClassic: &onClassic{Classic: i.Env.Classic}}
+		i.ExtraDenySlot = alt{OnClassic: &onClassic{Classic: i.Env.Classic}}
+	}
 	i.Low = genLow(r, focus)
 	if r.Chance(1, 25) {
 		ds := []*decl{&i.Base}
@@ -485,6 +487,10 @@ func genInst(r *vh.Rand) in {
 	i.Base = genDecl(r, false, 0, []int{4, 7, 9}[r.Intn(3)])
 	i.ExtraDenyPlug = genAlt(r, true, true, false)
 	i.ExtraDenySlot = genAlt(r, false, true, false)
+	if r.Chance(1, 3) {
+		i.ExtraDenyPlug = alt{OnClassic: &onClassic{Classic: i.Env.Classic}}
+		i.ExtraDenySlot = alt{OnClassic: &onClassic{Classic: i.Env.Classic}}
+	}
 	i.Low = genLow(r, 0)
 	if r.Chance(1, 25) {
 		if i.Decl != nil && r.Bool() {
@@ -569,6 +575,5 @@ func gen(r *vh.Rand, tier string, n int) []in {
 			out = append(out, genInst(r.Fork()))
 		}
 	}
-	_ = strconv.Itoa
 	return out
 }
